@@ -9,7 +9,7 @@ import (
 // Skeleton programs for dependency / fork shapes that the purely random
 // generator reaches rarely.  Types and literal values are still random.
 
-const NTemplates = 13
+const NTemplates = 14
 
 // NFileTemplates file-passing skeletons follow the NTemplates dataflow ones.
 const NFileTemplates = 8
@@ -357,6 +357,27 @@ func Template(kind int, seed int64, cfg *Config) *Program {
 			},
 			Ret: []Binding{{Id: "sd", Exp: ref("SD", "xo")}, {Id: "ds", Exp: ref("DS", "xo")}}}
 		p.Pipelines = []*Pipeline{inner, top}
+	case 13:
+		// nested run-time disable controls: a value produced by a call disabled
+		// by one flag passes through a pipeline disabled by another flag (the
+		// checks force the flag values so that all four combinations occur)
+		pass := &Pipeline{Name: "INNER", Ins: []Param{{Name: "v", Type: TInt}}, Outs: []Param{{Name: "w", Type: TInt}, {Name: "n", Type: TInt}},
+			Calls: []*Call{{Callee: "NOP"}},
+			Ret:   []Binding{{Id: "w", Exp: self("v")}, {Id: "n", Exp: ref("NOP", "n")}}}
+		top := &Pipeline{Name: "TOP"}
+		for k, combo := range []string{"FT", "TF", "FF", "TT"} {
+			c1, c2 := fmt.Sprintf("C1%s", combo), fmt.Sprintf("C2%s", combo)
+			s0, ps, see := fmt.Sprintf("S0%s", combo), fmt.Sprintf("PASS%s", combo), fmt.Sprintf("SEE%s", combo)
+			top.Calls = append(top.Calls,
+				&Call{Callee: "GEN", Alias: c1, Binds: []Binding{{Id: "seed", Exp: lit(s1 + int64(k))}}},
+				&Call{Callee: "GEN", Alias: c2, Binds: []Binding{{Id: "seed", Exp: lit(s2 + int64(k))}}},
+				&Call{Callee: "USE2", Alias: s0, Disabled: ref(c1, "flag"), Binds: []Binding{{Id: "x", Exp: &Exp{Kind: ENull}}, {Id: "w", Exp: lit(s1)}}},
+				&Call{Callee: "INNER", Alias: ps, Disabled: ref(c2, "flag"), Binds: []Binding{{Id: "v", Exp: ref(s0, "y")}}},
+				&Call{Callee: "CHK", Alias: see, Binds: []Binding{{Id: "v", Exp: ref(ps, "w")}}})
+			top.Outs = append(top.Outs, Param{Name: "w" + strings.ToLower(combo), Type: TInt})
+			top.Ret = append(top.Ret, Binding{Id: "w" + strings.ToLower(combo), Exp: ref(ps, "w")})
+		}
+		p.Pipelines = []*Pipeline{pass, top}
 	default:
 		fk := kind - NTemplates // file-passing skeleton number
 		// file-passing skeletons: a stage mapped over a run-time sized
